@@ -205,6 +205,9 @@ struct StepInfo {
     repeated_discard: bool,
     /// ack-eliciting packets sent in this op (they consume need_send_ack_eliciting)
     ae_sent: usize,
+    /// RFC 9002 A.7 PeerCompletedAddressValidation() as it stood when the ACK was processed:
+    /// server, or a Handshake ACK had been received before, or the handshake is confirmed
+    peer_validated: bool,
 }
 
 #[derive(Default)]
@@ -583,6 +586,7 @@ impl Run {
                 if self.sp[sp].last_send == Some(self.now()) {
                     tokio::time::advance(Duration::from_micros(50)).await;
                 }
+                info.peer_validated = self.server || self.hs_ack || self.confirmed;
                 let (frame, ai) = self.build_ack(sp, *top, *first, more, *delay_us, *ce);
                 let prev_largest = self.sp[sp].largest_acked;
                 self.sp[sp].largest_acked = Some(prev_largest.map_or(ai.largest, |l| l.max(ai.largest)));
@@ -1049,6 +1053,31 @@ impl Run {
             self.pto_fired_at.push(now);
         } else if info.is_tick {
             ensure!(need_up == 0, "probe-without-pto-count", "step {step} {what}: {need_up} probe packets requested but pto_count stayed {}", post.pc);
+        }
+        // RFC 9002 A.7 OnAckReceived: "Reset pto_count unless the client is unsure if the server has
+        // validated the client's address": the back-off of a client whose address may be unvalidated
+        // keeps doubling although its probes are acknowledged (anti-deadlock probing, §6.2.2.1)
+        if let Some(a) = info.ack.as_ref() {
+            if !info.first_discard && !info.repeated_discard {
+                if !info.peer_validated {
+                    ensure!(
+                        post.pc >= pre.pc,
+                        "pto-count-reset-before-address-validation",
+                        "step {step} {what}: pto_count {} -> {} on an ACK although this client has neither received a Handshake ACK nor confirmed the handshake",
+                        pre.pc,
+                        post.pc
+                    );
+                } else if !a.newly.is_empty() {
+                    ensure!(
+                        post.pc == 0,
+                        "pto-count-not-reset-on-ack",
+                        "step {step} {what}: pto_count {} -> {} although {} packets were newly acknowledged and the peer has validated the address",
+                        pre.pc,
+                        post.pc,
+                        a.newly.len()
+                    );
+                }
+            }
         }
         if post.pc < pre.pc {
             let ack_reset = info.ack.as_ref().is_some_and(|a| !a.newly.is_empty() || !a.late.is_empty());
